@@ -8,6 +8,11 @@
 //
 // protocol (one line per operation, every line answered by event lines, `st …`, `--`):
 //   connect L|F · disconnect L|F · stop L|F · enableRetry · destroy L|F · holdRef · dropRef
+//   hook up|down <disconnect|stop|connect|query>: the user's connection callback performs that operation on the
+//     client the next time it reports UP / DOWN (one-shot, first registered first; a callback that finds the client
+//     destroyed does nothing).  `query` prints `cb QUERY self|other|none`: what client.connection() returns inside
+//     the callback, compared with the connection being reported.  `# hook <cb> <op> <k>` (oracle only) marks the
+//     moment the operation is performed.
 //   advance <us> · iter
 //   script connect <ok|real|Exxx>… · script soerr <n|Exxx>… · script self <0|1>…
 //   server up|down|closeNext · peer close · pollerr
@@ -243,8 +248,31 @@ static int connIndex(const TcpConnectionPtr& c) {
   int id = p == std::string::npos ? 0 : atoi(c->name().c_str() + p + 1);
   return (id >= 1 && static_cast<size_t>(id) <= g_handedList.size()) ? g_handedList[static_cast<size_t>(id - 1)] : -1;
 }
+static void userOp(const std::string op);
+
+// operations the user's connection callback performs on the client (see `hook` in the protocol comment)
+struct Hook { std::string cb, op; };
+static std::vector<Hook> g_hooks;
+static void runHook(const char* cb, const TcpConnectionPtr& c) {
+  if (!g_client) return;
+  for (size_t i = 0; i < g_hooks.size(); ++i) {
+    if (g_hooks[i].cb != cb) continue;
+    std::string op = g_hooks[i].op;
+    g_hooks.erase(g_hooks.begin() + static_cast<long>(i));
+    emitf("# hook %s %s %d", cb, op.c_str(), connIndex(c));
+    if (op == "query") {
+      TcpConnectionPtr cur = g_client->connection();
+      emitLine(!cur ? "cb QUERY none" : (cur == c ? "cb QUERY self" : "cb QUERY other"));
+    } else {
+      userOp(op);
+    }
+    return;
+  }
+}
 static void onConnection(const TcpConnectionPtr& c) {
-  emitf(c->connected() ? "cb UP %d" : "cb DOWN %d", connIndex(c));
+  bool up = c->connected();
+  emitf(up ? "cb UP %d" : "cb DOWN %d", connIndex(c));
+  runHook(up ? "up" : "down", c);
 }
 static void onMessage(const TcpConnectionPtr&, Buffer* b, Timestamp) { b->retrieveAll(); }
 
@@ -303,6 +331,12 @@ static bool interp() {
       if (g_client && g_client->connection()) g_userConn = g_client->connection();
     } else if (op == "dropRef") {
       g_userConn.reset();
+    } else if (op == "hook") {
+      if (w.size() == 3 && (w[1] == "up" || w[1] == "down") &&
+          (w[2] == "disconnect" || w[2] == "stop" || w[2] == "connect" || w[2] == "query")) {
+        Hook h; h.cb = w[1]; h.op = w[2];
+        g_hooks.push_back(h);
+      } else emitLine("bad-op");
     } else if (op == "advance") {
       vi::advance(atoll(w[1].c_str()));
     } else if (op == "script" && w.size() >= 2 && w[1] == "poll") {
